@@ -32,7 +32,13 @@ func (tr *FnCtx) nameEnv(b *ssa.BasicBlock, upto int) map[string]*Val {
 				}
 				if v, ok := tr.vals[x.X]; ok {
 					seen[name] = true
-					env[name] = v
+					if x.IsAddr {
+						av := *v
+						av.AutoDeref = true
+						env[name] = &av
+					} else {
+						env[name] = v
+					}
 				} else if c, ok := x.X.(*ssa.Const); ok {
 					seen[name] = true
 					env[name] = tr.constVal(c)
@@ -48,7 +54,9 @@ func (tr *FnCtx) nameEnv(b *ssa.BasicBlock, upto int) map[string]*Val {
 				if x.Comment != "" && !seen[x.Comment] {
 					if v, ok := tr.vals[x]; ok {
 						seen[x.Comment] = true
-						env[x.Comment] = v
+						av := *v
+						av.AutoDeref = true // a variable: specs see its content
+						env[x.Comment] = &av
 					}
 				}
 			}
@@ -84,6 +92,9 @@ func (tr *FnCtx) lockModeOf(spec *FuncSpec, fn *ssa.Function) string {
 	}
 	if !tr.W.inLockPkg(fnPkg(fn).Pkg.Path()) {
 		return "any"
+	}
+	if d, ok := tr.W.C.LockDefault[fnPkg(fn).Pkg.Path()]; ok {
+		return d
 	}
 	// default: exported API and goroutine entry points start without the lock
 	if fn.Object() != nil && fn.Object().Exported() {
@@ -1055,7 +1066,7 @@ func (tr *FnCtx) call(st *State, c *ssa.CallCommon, instr ssa.Instruction, mode 
 		}
 		tr.note("interface call without contract: " + name + " (everything havocked)")
 		if mode != "go" {
-			tr.havocAll(st)
+			tr.havocAllKeepHeld(st, c.Method.Pkg())
 		}
 		return fresh("inv")
 	}
@@ -1103,11 +1114,18 @@ func (tr *FnCtx) call(st *State, c *ssa.CallCommon, instr ssa.Instruction, mode 
 	}
 	if pk != nil && tr.W.isLocalPkg(pk.Pkg) {
 		tr.note("call of " + f.String() + " which has no contract (everything havocked)")
+		if mode != "go" {
+			tr.havocAll(st)
+		}
 	} else {
-		tr.note("call of external " + f.String() + " without extern contract (everything havocked)")
-	}
-	if mode != "go" {
-		tr.havocAll(st)
+		tr.note("call of external " + f.String() + " without extern contract (everything havocked except the caller's lock state)")
+		if mode != "go" {
+			var tp *types.Package
+			if pk != nil {
+				tp = pk.Pkg
+			}
+			tr.havocAllKeepHeld(st, tp)
+		}
 	}
 	return fresh("call")
 }
@@ -1167,6 +1185,7 @@ func (tr *FnCtx) applyContract(st *State, f *ssa.Function, spec *FuncSpec, metho
 	tr.callCount[calleeName]++
 	k := tr.callCount[calleeName]
 	pre := st.clone()
+	prefixBefore := len(tr.cmds)
 	env := &Env{tr: tr, vars: vars, st: pre, old: pre, pkg: pkg, allocOld: tr.cur(pre, compAlloc)}
 	tr.runAts(st, fmt.Sprintf("%s %s#%d", modeWord(mode), calleeName, k), vars)
 	// lock mode of the callee
@@ -1249,6 +1268,11 @@ func (tr *FnCtx) applyContract(st *State, f *ssa.Function, spec *FuncSpec, metho
 	}
 	for _, cl := range spec.Ensures {
 		tr.assume(tr.evalClause(post, cl))
+	}
+	// vacuity canary: the assumed postcondition must not make the continuation unreachable
+	if tr.guard != "false" && !tr.inGuardedDefer {
+		tr.obls = append(tr.obls, &Obligation{Name: tr.Short + "/vacuity-calls", Fn: tr.Short, Kind: "canary2", Prefix: len(tr.cmds), PrefixBefore: prefixBefore, Goal: not(tr.guard),
+			Src: fmt.Sprintf("the assumed contract of %s (call #%d) does not make a reachable call site unreachable", calleeName, k), Ctx: tr})
 	}
 	tr.runAts(st, fmt.Sprintf("after %s#%d", calleeName, k), post.vars)
 	if f != nil && tr.lockSweep {
@@ -1593,4 +1617,17 @@ func (tr *FnCtx) sortSortModsCommon(c *ssa.CallCommon) ([]Comp, bool) {
 		}
 	}
 	return nil, true
+}
+
+// havocAllKeepHeld: a function of another module may change any modelled memory but cannot reach the
+// runner's mutex, so the ghost lock state of the calling goroutine is unchanged (stated assumption).
+func (tr *FnCtx) havocAllKeepHeld(st *State, callee *types.Package) {
+	if callee != nil && tr.W.isLocalPkg(callee) {
+		tr.havocAll(st)
+		return
+	}
+	held := tr.cur(st, compHeld)
+	tr.havocAll(st)
+	st.Comps[compHeld.Name] = held
+	tr.externUsed["functions of other modules do not change the lock state of the calling goroutine"] = true
 }
